@@ -40,6 +40,8 @@ type Check struct {
 	AltCG      bool // thorough tier: use the other call-graph construction (CHA <-> VTA)
 	start      time.Time
 	fixtureRun bool
+	byName     map[string]*ssa.Function
+	extraConds []string // conditions of the merge edge of the call-site instance being checked (see Program.Instances)
 }
 
 func newCheck(p *Program, prop, tier string) *Check {
